@@ -50,11 +50,11 @@ struct readline
     int lastsize;
 
     char *history_space; // Указатель на буффер истории.
-    uint8_t history_size; // Количество строк в буффере истории.
+    unsigned int history_size; // Количество строк в буффере истории.
 
-    uint8_t headhist; // Индекс в массиве, куда будет перезаписываться новая
+    unsigned int headhist; // Индекс в массиве, куда будет перезаписываться новая
                       // строка истории.
-    uint8_t curhist; // Индекс выбора строки истории (0-пустая, 1-последняя,
+    unsigned int curhist; // Индекс выбора строки истории (0-пустая, 1-последняя,
                      // 2-предпоследняя и т.д.)
 };
 
